@@ -797,7 +797,6 @@ func (e *Eval) bigMethod(fr *frame, x *ssa.Call, m string, args []AV, st State) 
 
 var _ = types.Typ
 
-
 // joinOfListWords: every element of the joined slice is an element of a package-level word list.
 func joinOfListWords(a *ArrC) bool {
 	if a == nil || a.Top != "" || len(a.Elems) == 0 {
@@ -811,7 +810,6 @@ func joinOfListWords(a *ArrC) bool {
 	}
 	return true
 }
-
 
 // sbMethod models strings.Builder.
 func (e *Eval) sbMethod(fr *frame, x *ssa.Call, m string, args []AV, st State) AV {
@@ -914,7 +912,6 @@ func sbString(c SBC) AV {
 	return StrV{Kind: skConcat, Parts: parts}
 }
 
-
 // ReadInfo describes one evaluated call that fills a buffer from a reader.
 type ReadInfo struct {
 	Callee string
@@ -924,7 +921,6 @@ type ReadInfo struct {
 	Whole  bool // the target is the whole buffer
 	Fresh  bool // the buffer came straight from make([]byte, n)
 }
-
 
 // guardedResult keeps the correlation "other results are valid iff the error is nil" across a
 // call of a module function returning (…, error): if its returns split into some with a nil
